@@ -358,4 +358,51 @@ theorem optRoundtrip_sound (o : OptTables) (f : OptFamily) (h : optRoundtrip o f
     rw [(nameEq_iff _ _).2 e] at hab
     cases hab
 
+/-! ### call sites -/
+
+theorem nth_mem {α : Type} (i : Nat) (l : List α) (x : α) (h : nth i l = some x) : x ∈ l := by
+  induction l generalizing i with
+  | nil => simp [nth] at h
+  | cons y r ih =>
+    cases i with
+    | zero => simp [nth] at h; simp [h]
+    | succ j => simp only [nth] at h; exact List.mem_cons_of_mem _ (ih j h)
+
+theorem protoAt_some (i : Nat) (n : Name) (protos : List Proto) (p : Proto) (h : protoAt i n protos = some p) :
+    p ∈ protos ∧ p.name = n := by
+  unfold protoAt at h
+  split at h
+  · rename_i q hq
+    split at h
+    · rename_i hn
+      simp at h; subst h
+      exact ⟨nth_mem _ _ _ hq, (nameEq_iff _ _).1 hn⟩
+    · cases h
+  · cases h
+
+theorem callWhy_none_sound (cm : ClassMap) (protos : List Proto) (c : CallSite) (h : callWhy cm protos c = none) :
+    ∃ p, (p ∈ protos ∧ p.name = c.fn) ∧
+      ((∃ r, c.restype = some r ∧ kindOk cm p.ret r = true) ∨
+       (c.restype = none ∧ (c.used = false ∨ retDefaultOk p.ret = true))) := by
+  unfold callWhy at h
+  split at h
+  · cases h
+  · rename_i p hp
+    refine ⟨p, protoAt_some _ _ _ _ hp, ?_⟩
+    split at h
+    · rename_i r hr
+      split at h
+      · cases h
+      · rename_i hk
+        exact Or.inl ⟨r, hr, by simpa using hk⟩
+    · rename_i hr
+      split at h
+      · cases h
+      · rename_i hk
+        refine Or.inr ⟨hr, ?_⟩
+        simp only [Bool.and_eq_true, Bool.not_eq_true', not_and, Bool.not_eq_false] at hk
+        cases hu : c.used
+        · exact Or.inl rfl
+        · exact Or.inr (hk hu)
+
 end RV.Layout
